@@ -1379,6 +1379,13 @@ for _pid in ("C01", "C02"):
         "inherited from baseLeaf, is a parameter), are proved in Props/C01LeafCode to be the index-level model's matchAllLeafIdx for a "
         "position inside the path: refused when the capture limit is positive and smaller than the number of remaining segments, refused "
         "when the header constraints fail, else the bind is segment + \"/\" + path[next:] (matchAll_refines, match_refines).")
+for _pid in ("C02", "C09"):
+    PROPS[_pid]["code_modules"] = PROPS[_pid]["code_modules"] + ["Flamego.Props.C02LeafCode"]
+    PROPS[_pid]["level_text"] = PROPS[_pid]["level_text"] + (
+        " The leaves' own `match` too: staticLeaf, placeholderLeaf and regexLeaf (leaf.go), translated on every run "
+        "(Gen/StaticLeafCode, Gen/HoleLeafCode, Gen/RegexLeafCode; matchHeader is a parameter), are proved in Props/C02LeafCode to be "
+        "the model's leafMatch for a leaf of that pattern — and in each a leaf whose header constraints fail neither matches nor writes "
+        "a parameter (static_leaf_refines, hole_leaf_refines, regex_leaf_refines).")
 _ALL = ['C01', 'C02', 'C03', 'C04', 'C05', 'C06', 'C07', 'C08', 'C09', 'C10', 'C11', 'C12', 'C13', 'C14', 'C15', 'C16', 'C17', 'C18']
 NOT_APPLICABLE = [
     {"property_id": p, "reason": "check not built yet in this revision (work in progress; see DESIGN.md §11 for the plan)"}
